@@ -38,7 +38,17 @@ std::string gen_text(Src &s, int tgt) {
     if (s.boolean()) return s.rest();                       // raw bytes (coverage-guided fuzzing works on these)
     const auto &d = dict(tgt);
     std::string t;
-    size_t n = (size_t)s.range(0, 60);
+    if (tgt == 6 && s.chance(1, 4)) {
+        // nearly valid document: whole valid lines (so that the parser gets deep: open and nested
+        // sections, close tags), cut off anywhere and with at most one damaged byte
+        static const char *lines[] = {"Opt x", "Int 5", "Flt -1.5", "Bool on", "All 1 2 3", "Two yes 2.5", "<Sec x>", "</Sec>", "<Sub>", "</Sub>", "InSec y", "# c", "", "  ", "Opt \"a b\"", "<Sec 'q'>", "Err"};
+        size_t nl = (size_t)s.pick({3, 2, 1}) == 0 ? (size_t)s.range(1, 3) : (size_t)s.range(1, 14);
+        for (size_t i = 0; i < nl; i++) { t += lines[s.range(0, (long)(sizeof lines / sizeof *lines) - 1)]; if (i + 1 < nl || s.boolean()) t += "\n"; }
+        if (s.chance(1, 3) && !t.empty()) t.resize((size_t)s.range(0, (long)t.size()));
+        if (s.chance(1, 4) && !t.empty()) t[(size_t)s.range(0, (long)t.size() - 1)] = (char)s.range(1, 255);
+        return t;
+    }
+    size_t n = s.chance(1, 4) ? (size_t)s.range(0, 4) : (size_t)s.range(0, 60);
     for (size_t i = 0; i < n && !s.exhausted(); i++) {
         if (s.chance(1, 8)) t.push_back((char)s.range(1, 255));
         else if (tgt == 5 && s.chance(1, 25)) {
@@ -88,6 +98,7 @@ char *cb_touch(qaconf_cbdata_t *d, void *ud) {
 char *cb_err(qaconf_cbdata_t *d, void *ud) { cb_touch(d, ud); return strdup("callback says no"); }
 
 void run_target(int tgt, const std::string &text, unsigned cfg, Src &s, Ctx &c) {
+    dirty_stack();
     switch (tgt) {
         case 0: case 1: case 2: {
             CStr b(text);
@@ -155,7 +166,9 @@ void run_target(int tgt, const std::string &text, unsigned cfg, Src &s, Ctx &c) 
             if (!q) c.fail(FUNC, "robust:qaconf-ctor", "qaconf() returned NULL");
             q->addoptions(q, opts);
             if (defh) q->setdefhandler(q, cb_touch);
-            int n = q->parse(q, (g_dir + "/vf-apache.conf").c_str(), (uint8_t)flags);
+            std::string path = g_dir + "/vf-apache.conf";
+            dirty_stack();
+            int n = q->parse(q, path.c_str(), (uint8_t)flags);
             const char *em = q->errmsg(q);
             bool hasmsg = em != nullptr && em[0] != '\0';
             q->free(q);
